@@ -26,7 +26,7 @@ THEOREMS = [f'Gnpy.Chain.{t}' for t in (
     'rint_error', 'round2float_error', 'targetPower_roadm', 'targetPower_range', 'dp_rule', 'dp_rule_rounding',
     'gain_closes_budget', 'net_offset', 'ref_power_invariant', 'saturation_only_reduces', 'saturation_minimal',
     'saturation_minimal_gain_mode', 'saturation_auto_selected', 'user_values_kept', 'voa_rule', 'voa_nonneg',
-    'voa_auto_can_exceed_pmax_fails_current', 'nodeLoss_is_true_loss', 'budget_breaks_with_user_att_in_fails_current')]
+    'voa_auto_can_exceed_pmax_fails_current', 'nodeLoss_is_true_loss')]
 RULE = ('cases from one PRNG: (a) 78 % the star topologies of C08 (degree 1-5, 1-8 line elements per direction, user '
         'amplifiers with full/partial/no gain, delta_p, out_voa, in_voa, fused runs, Raman spans, transceiver-sourced '
         'line) x power/gain mode x delta_power_range/slope/reference/padding/EOL/VOA margin+step/extended gain/ROADM '
@@ -306,7 +306,6 @@ def monitor_oms(res, case, eq, ch, pre, post, p0, pref, pref_total, st):
     power_mode = sp['power_mode']
     rng_ = sp['delta_power_range_db']
     user = {o['uid']: o for o in pre if o['kind'] == 'edfa'}
-    att0 = {o['uid']: o['att_in'] for o in pre if o['kind'] in ('fiber', 'raman')}
     off = p0 - pref             # power entering the line relative to the reference (prev_dp - prev_voa)
     f10_at = None
     f13_at = None
@@ -328,12 +327,7 @@ def monitor_oms(res, case, eq, ch, pre, post, p0, pref, pref_total, st):
         u_voa = None if u is None else u['out_voa_user']
         voa_auto = u_voa is None and power_mode and bool(a.out_voa_auto)
         st['amps_voa_auto'] += int(voa_auto)
-        # the double count of a user att_in by add_fiber_padding (finding F10) breaks what follows on that span
-        f10 = any(x['kind'] == 'fiber' and att0.get(G.base_uid(x['uid']), 0.0) != 0.0
-                  and x['att_in'] > att0.get(G.base_uid(x['uid']), 0.0) + 1e-12 for x in span)
-        cls = 'att-in-double-count' if f10 else 'unlisted'
-        if f10 and f10_at is None:
-            f10_at = idx
+        cls = 'unlisted'
         # (a) gain = loss since the previous amplifier + change of target
         exp_gain = loss + D - off + iv
         if abs(Gn - exp_gain) > TOL:
@@ -366,13 +360,9 @@ def monitor_oms(res, case, eq, ch, pre, post, p0, pref, pref_total, st):
         # next span loss (true losses up to the next amplifier / the end of the line)
         nxt = 0.0
         j = idx + 1
-        nxt_f10 = False
         while j < len(post) and post[j]['kind'] != 'edfa':
             x = post[j]
             nxt += G.rec_loss(x) - ((x['raman_gain'] or 0.0) if x['kind'] == 'raman' else 0.0)
-            if x['kind'] == 'fiber' and att0.get(G.base_uid(x['uid']), 0.0) != 0.0 \
-                    and x['att_in'] > att0.get(G.base_uid(x['uid']), 0.0) + 1e-12:
-                nxt_f10 = True
             j += 1
         before_roadm = (idx + 1 == len(post)) and ch['dst'].startswith('R')      # the ROADM is the next node
         if power_mode and u_dp is None:
@@ -387,7 +377,7 @@ def monitor_oms(res, case, eq, ch, pre, post, p0, pref, pref_total, st):
                 lo_ok = min(rng_[1], max(rng_[0], x - err))
                 hi_ok = min(rng_[1], max(rng_[0], x + err))
                 st['amps_rule_clamped'] += int(not (rng_[0] < x < rng_[1]))
-            cls_r = 'att-in-double-count' if nxt_f10 else 'unlisted'
+            cls_r = 'unlisted'
             if net > hi_ok + TOL:
                 res.fail(f'rule: {r["uid"]} ({tag}) sends {net:.6f} dB above reference into a span of {nxt:.6f} dB, '
                          f'rule allows [{lo_ok:.6f}, {hi_ok:.6f}]', cls=cls_r, uid=r['uid'])
@@ -415,13 +405,10 @@ def monitor_oms(res, case, eq, ch, pre, post, p0, pref, pref_total, st):
                 if Gn > u_gain + TOL:
                     res.fail(f'user gain: {r["uid"]} gain {Gn} above the operator value {u_gain}', uid=r['uid'])
                 elif not (would > limit - TOL and p_in + Gn >= limit - TOL):
-                    # the gain-mode check of the code leaves the input VOA out of the output power: the gain is then
-                    # reduced by in_voa more than saturation requires (finding F14)
-                    f14 = bool(iv) and not auto_sel and abs((p_in + iv + Gn) - limit) <= TOL
                     res.fail(f'user gain: {r["uid"]} gain {Gn:.6f} instead of the operator value {u_gain}: with the '
                              f'operator value the output would be {would:.6f} dBm, with the reduced gain it is '
                              f'{p_in + Gn:.6f} dBm, limit {limit:.6f} dBm (in_voa {iv}): reduced more than needed',
-                             cls='gain-mode-in-voa-saturation' if f14 else 'unlisted', uid=r['uid'])
+                             uid=r['uid'])
             else:
                 st['amps_user_gain_kept'] += 1
         off = net
@@ -432,9 +419,7 @@ def monitor_oms(res, case, eq, ch, pre, post, p0, pref, pref_total, st):
 
 def known_cls(known_at, k):
     """a deviation at or after an amplifier already reported for a known finding is the same finding"""
-    f10_at, f13_at = known_at
-    if f10_at is not None and k >= f10_at:
-        return 'att-in-double-count'
+    _, f13_at = known_at
     if f13_at is not None and k >= f13_at:
         return 'voa-rounding-above-pmax'
     return 'unlisted'
